@@ -174,8 +174,8 @@ def in_family(entry, e):
         return isinstance(e, dns.exception.FormError) or isinstance(e, WIRE_EXTRA)
     if entry in ("name_text",):
         return isinstance(e, (dns.exception.SyntaxError,) + TEXT_EXTRA)
-    if entry in ("rdata_text", "ttl_text"):
-        return isinstance(e, dns.exception.SyntaxError)
+    if entry in ("rdata_text", "ttl_text", "tok_api"):
+        return isinstance(e, dns.exception.SyntaxError) or (entry == "tok_api" and isinstance(e, TEXT_EXTRA))
     if entry in ZONE_ENTRIES:
         # SyntaxError family (with file:line), the name-limit errors dns.name documents for every
         # constructor, and the documented zone-semantic errors
@@ -420,6 +420,21 @@ def _p_msg_text(p):
     return ("message", m, {})
 
 
+TOK_METHODS = ("get_int", "get_uint8", "get_uint16", "get_uint32", "get_uint48", "get_string", "get_identifier", "get_ttl",
+               "concatenate_remaining_identifiers", "get_name", "get_eol", "get_remaining", "get_string_as_bytes")
+
+
+def _p_tok_api(p):
+    """the public Tokenizer helpers called directly on a text (no ExceptionWrapper around them)"""
+    text, mi = p
+    tok = dns.tokenizer.Tokenizer(text)
+    m = TOK_METHODS[mi % len(TOK_METHODS)]
+    if m == "get_string_as_bytes" and not hasattr(tok, m):
+        m = "get_string"
+    v = getattr(tok, m)()
+    return ("int", 0 if v is None or not isinstance(v, int) else v)
+
+
 def _p_ttl_text(p):
     (text,) = p
     return ("int", dns.ttl.from_text(text))
@@ -437,10 +452,11 @@ ENTRIES = {
     "read_rrsets": _p_read_rrsets,
     "msg_text": _p_msg_text,
     "ttl_text": _p_ttl_text,
+    "tok_api": _p_tok_api,
 }
 
 
-TEXT_POS = {"rdata_text": 2, "zone_text": 0, "read_rrsets": 0, "msg_text": 0, "ttl_text": 0}
+TEXT_POS = {"rdata_text": 2, "zone_text": 0, "read_rrsets": 0, "msg_text": 0, "ttl_text": 0, "tok_api": 0}
 
 
 def fix_payload(entry, payload):
@@ -1418,7 +1434,7 @@ def sweep_batch(args):
     counts = {}
     fails = []
     hangs = 0
-    gen = small_scope_probes(what.split(":")[1]) if what.startswith("small:") else sweep_probes(s, what)
+    gen = small_scope_probes(what.split(":")[1]) if what.startswith("small:") else (escape_probes() if what == "esc" else sweep_probes(s, what))
     what = what.split(":")[0]
     for i, (e, p) in enumerate(gen):
         if i % nshards != shard:
@@ -1434,6 +1450,64 @@ def sweep_batch(args):
                 if hangs >= 3:
                     break
     return counts, fails
+
+
+# ------------------------------------------------------------------------------ escape family
+# backslash escapes followed by 1-3 characters drawn from: an ASCII digit, decimal digits of other
+# scripts (Arabic-Indic, Devanagari, fullwidth: str.isdecimal(), int() accepts them), characters that
+# are str.isdigit() but not isdecimal() (superscripts, circled digit, Kharosthi: int() raises
+# ValueError), a letter
+ESC_ATOMS = ["1", "9", "\u0663", "\uff13", "\u00b2", "\u2460", "\U00010a40", "a"]
+
+
+def escape_tokens():
+    import itertools
+
+    out = []
+    for n in (1, 2, 3):
+        for combo in itertools.product(ESC_ATOMS, repeat=n):
+            # at most one ASCII-digit kind and one letter per position class keeps the family small:
+            # "9" only in first position, "a" only last
+            if "9" in combo[1:] or "a" in combo[:-1]:
+                continue
+            out.append("\\" + "".join(combo))
+    return out
+
+
+def escape_probes():
+    """every escape of the family in every token position of message text (header lines, question
+    and RR lines), zone text (owner, ttl, class, type, rdata fields, directives), record text, and
+    through the public Tokenizer helpers"""
+    escs = escape_tokens()
+    msg_templates = ["id {}", "edns {}", "payload {}", "opcode {}", "rcode {}", "flags {}", "eflags {}", "flags QR {}", "{} 1",
+                     "id 1\n;QUESTION\n{} IN A", "id 1\n;QUESTION\nexample. {} A", "id 1\n;QUESTION\nexample. IN {}",
+                     "id 1\n;ANSWER\n{} 300 IN A 10.0.0.1", "id 1\n;ANSWER\nexample. {} IN A 10.0.0.1", "id 1\n;ANSWER\nexample. 300 {} A 10.0.0.1",
+                     "id 1\n;ANSWER\nexample. 300 IN {} 10.0.0.1", "id 1\n;ANSWER\nexample. 300 IN A {}", "id 1\n;ANSWER\nexample. 300 IN MX {} mx.",
+                     "id 1\n;ANSWER\nexample. 300 IN MX 10 {}", "id 1\n;ANSWER\nexample. 300 IN TXT {}", "id 1\n;ANSWER\nexample. 300 IN TXT \"{}\"",
+                     "id 1\n;{}\n"]
+    zone_pre = "$ORIGIN example.\n@ 300 IN SOA ns1 h 1 2 3 4 5\n@ NS ns1\n"
+    zone_templates = ["{} 300 IN A 10.0.0.1", "x {} IN A 10.0.0.1", "x 300 {} A 10.0.0.1", "x 300 IN {} 10.0.0.1", "x 300 IN A {}", "x 300 IN MX {} mx",
+                      "x 300 IN MX 10 {}", "x 300 IN TXT {}", "x 300 IN TXT \"{}\"", "x 300 IN SOA a b {} 2 3 4 5", "$TTL {}", "$ORIGIN {}", "${}",
+                      "$GENERATE {} x$ A 10.0.0.$", "$GENERATE 1-2 {} A 10.0.0.$", "$GENERATE 1-2 x$ {} 10.0.0.$", "$GENERATE 1-2 x$ A {}", "$GENERATE 1-2 x${{{},2,d}} A 10.0.0.$"]
+    rd_templates = [(1, 1, "{}"), (1, 15, "{} mx."), (1, 15, "10 {}"), (1, 16, "{}"), (1, 16, "\"{}\""), (1, 6, "a b {} 2 3 4 5"), (1, 13, "{} os"),
+                    (1, 46, "A 8 {} 300 20240101000000 20230101000000 1 example. AAAA"), (1, 47, "x. {}"), (1, 43, "{} 8 2 AABB")]
+    for e in escs:
+        for form in ((e, "1" + e, "a" + e + "b") if len(e) == 2 else (e, "1" + e)):
+            for t in msg_templates:
+                yield "msg_text", [t.format(form) + "\n", 0, 0, 0]
+            for t in zone_templates:
+                try:
+                    line = t.format(form)
+                except (IndexError, KeyError, ValueError):
+                    continue
+                yield "zone_text", [zone_pre + line + "\n", 1, 1, 1]
+                yield "read_rrsets", [line + "\n", 44, 1, 1]
+            for c, ty, t in rd_templates:
+                yield "rdata_text", [c, ty, t.format(form), 1, 1]
+            for mi in range(len(TOK_METHODS)):
+                yield "tok_api", [form + " x", mi]
+            yield "name_text", [form + ".example.", 0, 0]
+            yield "ttl_text", [form]
 
 
 # ------------------------------------------------------------------------------ hypothesis check
